@@ -238,10 +238,24 @@ func Gen17(t *rapid.T) Case17 {
 		c.Spelling = GenSpelling(t, "sp", true)
 	} else {
 		c.UseRaw = true
-		c.Raw = B(gen.Input(t, "raw"))
+		switch rapid.IntRange(0, 5).Draw(t, "rawKind") {
+		case 0:
+			c.Raw = B(gen.Mutate(t, "mut", gen.StartURL(t, "raw")))
+		case 1:
+			c.Raw = B(gen.Pick(t, "canonhostile", c17Hostile))
+		case 2:
+			c.Raw = B("http://h/p?" + genLongQuery(t))
+		default:
+			c.Raw = B(gen.Input(t, "raw"))
+		}
 	}
 	return c
 }
+
+// inputs where canonicalization steps interact with the URL's structure
+var c17Hostile = []string{"data:x ?", "a:b ?#", "a:b  ?&&", "a:b ?&#f", "foo:o  ?=", "a:b #", "a:b  ?q# ", "foo://u:p@h:1/?&", "http://h/?&&", "http://h/?#", "http://h/?=", "http://u@h:80/?b&a#",
+	"foo://u@%2f", "foo://%2f:80", "foo://h%3a1/", "foo://u:p@%5b/", "http://h/%252e%252e/x", "http://h/a/%2E%2e/b", "http://h/?%2B", "http://h/?a=%26&b", "http://h/?%25%36%31", "foo:/.//p", "foo:/p/..//x", "http://h//..//x?#",
+	"file:///C|/../x", "file://localhost/C:/x#", "ws://h:80/?%20", "http://h:0080/", "HTTP://H/?B=1&A=2&a=3", "x:y?%zz&%", "foo://h/?a b&c\td", "example.com:80/p?b&a", "u:p@h/?q", "//h/?b&a"}
 
 var P17 = core.Register(core.Prop[Case17]{
 	ID: "C17",
